@@ -159,7 +159,10 @@ def facts(src, strip_comments, fn_body):
         m = re.search(r"RespFrame::SimpleString\(bytes\)\s*=>\s*\{(.*?)\n\s*\}\s*\n\s*RespFrame::", r2l, re.S)
         if m:
             q["statusIsString"] = "create_table" not in m.group(1)
-        q["lossyStrings"] = "from_utf8_lossy" in r2l
+        arm = re.search(r"RespFrame::BulkString\(Some\(bytes\)\)\s*=>\s*\{(.*?)\n\s{12}\}", r2l, re.S)
+        ksa = fn_body(eng, "setup_keys_and_args")
+        if arm and ksa is not None:
+            q["lossyStrings"] = "from_utf8_lossy" in arm.group(1) or "from_utf8_lossy" in ksa
     herr = fn_body(eng, "handle_command_error_with_context")
     if herr is not None:
         m = re.search(r"if\s+is_pcall\s*\{(.*?)\}\s*else", herr, re.S)
